@@ -4,13 +4,16 @@ import BV.Drive.Util
 /-
 Line protocol of the `stream` engine (the leading token `stream` is stripped by `Drive.lean`):
 
-  <mode> <call> <call> …        one fresh encoder, `mode` = `f` (bytes compared) or `k` (skeleton:
-                                lengths and counters only; inputs are `#<len>`, oracle bits absent)
+  <mode> <call> <call> …        one fresh encoder, `mode` = `f` (bytes compared), `k` (skeleton:
+                                lengths and counters only; inputs are `#<len>`, oracle bits absent) or
+                                `r` (ring content: like `k`, but inputs are `@<start>.<len>` = the bytes
+                                b(start), …, b(start+len-1) of the fixed sequence b(p) = ((p * 2654435761) / 2048) % 256
+                                and the ring-buffer content digest is compared)
     P:<id>:<value>              set_parameter(id, value)            → `<ret>:<digest>`
     C:<op>:<in>+<extra>:<cap>[:<a>/<a>…]
                                 compress_stream(op, next_in = in ++ extra arbitrary bytes,
                                 available_out = cap); op 0 PROCESS 1 FLUSH 2 FINISH 3 EMIT_METADATA;
-                                `<in>` = hex | `-` | `#<len>`; the `<a>` are the recorded answers
+                                `<in>` = hex | `-` | `#<len>` | `@<start>.<len>`; the `<a>` are the recorded answers
                                 of the payload-encoder invocations of this call, in order:
                                 `<result>.<emit>.<nbits>.<hexbits|->` (all bits appended behind
                                 the carry by that invocation; emit = "nothing left unflushed")
@@ -18,7 +21,9 @@ Line protocol of the `stream` engine (the leading token `stream` is stripped by 
                                   reqs = `<site>.<lo>.<hi>.<lf>.<last>.<flush>` joined by `/`, `-` if none
     T:<size>                    take_output(size)                   → `<n>:<hex | ->:<digest>`
   digest = st,ip,lf,lp,lb(-1 in skeleton mode; 0 when lbb = 0: the code leaves a stale byte there),lbb,ao,rm,le,init,to,fm,q,w,b,hint,cat,app,magic,lw,
-           mode,dlcm,usedict,rpos,rcur,2*fin+more
+           mode,dlcm,usedict,rpos,rcur,2*fin+more,ral(data_mo.len()),rdg(-1 in skeleton mode)
+  rdg = FNV-1a over ringbuffer_.data_mo at the indices (those below ral, in this order) 0, 1, 2+((pos-j)&mask) for j = 1..32,
+        2+size+((pos-j)&mask) for j = 1..32, 2+(pos&mask)+i for i < 7: prefix, the last bytes written, their tail mirror, the slack
   After the last call's answer, one more token summarises the WHOLE history as computed by the
   run-level object `BV.Stream.run` (one oracle for the whole line = all recorded answers in order):
     `R:<delivered bytes>:<FNV-1a of the delivered bytes | ->:<requests>:<closed flags 0/1… | ->:<data bytes consumed>:<metadata bytes consumed>`
@@ -32,11 +37,22 @@ open BV.Drive BV.Stream BV.Bits
 
 def b2n (b : Bool) : Nat := if b then 1 else 0
 
-def digest (s : St) (full : Bool) : String :=
+def fnv1a (bs : List Nat) : Nat := bs.foldl (fun h b => ((h ^^^ (b % 256)) * 16777619) % 4294967296) 2166136261
+
+def ringDigest (rb : Ring) : Nat :=
+  if rb.allocLen = 0 then 0 else
+  let back (j : Nat) : Nat := ((rb.pos + 4294967296 - (j + 1)) % 4294967296) % (rb.mask + 1)
+  let idxs := [0, 1] ++ (List.range 32).map (fun j => 2 + back j) ++ (List.range 32).map (fun j => 2 + rb.size + back j)
+              ++ (List.range 7).map (fun i => 2 + rb.pos % (rb.mask + 1) + i)
+  fnv1a ((idxs.filter (fun i => decide (i < rb.allocLen))).map rb.get)
+
+def genByte (p : Nat) : Nat := ((p * 2654435761) / 2048) % 256
+
+def digest (s : St) (full : Bool) (ring : Bool := full) : String :=
   let p := s.params
   let lb : String := if full then toString (if s.lastBytesBits = 0 then 0 else s.lastBytes) else "-1"
   let fin := b2n (isFinished s) * 2 + b2n (hasMoreOutput s)
-  s!"{s.streamState.code},{s.inputPos},{s.lastFlushPos},{s.lastProcessedPos},{lb},{s.lastBytesBits},{s.pending.length},{s.remainingMetadata},{b2n s.isLastBlockEmitted},{b2n s.isInitialized},{s.totalOut},{s.isFirstMb.code},{p.quality},{p.lgwin},{p.lgblock},{p.sizeHint},{b2n p.catable},{b2n p.appendable},{b2n p.magic},{b2n p.largeWindow},{p.mode},{p.dlcm},{b2n p.useDict},{s.ring.pos},{s.ring.curSize},{fin}"
+  s!"{s.streamState.code},{s.inputPos},{s.lastFlushPos},{s.lastProcessedPos},{lb},{s.lastBytesBits},{s.pending.length},{s.remainingMetadata},{b2n s.isLastBlockEmitted},{b2n s.isInitialized},{s.totalOut},{s.isFirstMb.code},{p.quality},{p.lgwin},{p.lgblock},{p.sizeHint},{b2n p.catable},{b2n p.appendable},{b2n p.magic},{b2n p.largeWindow},{p.mode},{p.dlcm},{b2n p.useDict},{s.ring.pos},{s.ring.curSize},{fin},{s.ring.allocLen},{if ring then toString (ringDigest s.ring) else "-1"}"
 
 def bitsOfBytes (bs : List Nat) (n : Nat) : List Bool := (bytesBits bs).take n
 
@@ -61,18 +77,22 @@ def parseInput (t : String) : Option (List Nat) :=
     | _ => ("?", 0)
   if h == "?" then none
   else if h.startsWith "#" then some (List.replicate (natArg (h.drop 1).toString + extra) 0)
+  else if h.startsWith "@" then
+    match (h.drop 1).toString.splitOn "." with
+    | [st, ln] => some ((List.range (natArg ln)).map (fun i => genByte (natArg st + i)) ++ List.replicate extra 0)
+    | _ => none
   else some (hexToBytes h ++ List.replicate extra 0)
 
 def reqToken (r : Req) : String := s!"{r.site}.{r.lo}.{r.hi}.{r.lf}.{b2n r.isLast}.{b2n r.forceFlush}"
 
-def runCalls (full : Bool) : St → List String → List String → List String
+def runCalls (full : Bool) (ring : Bool) : St → List String → List String → List String
   | _, [], acc => acc
   | s, tok :: rest, acc =>
     match tok.splitOn ":" with
     | ["P", id, v] =>
       if id.toNat?.isNone ∨ v.toNat?.isNone then "bad-op" :: acc else
       let (s', r) := setParameter s (natArg id) (natArg v)
-      runCalls full s' rest (s!"{b2n r}:{digest s' full}" :: acc)
+      runCalls full ring s' rest (s!"{b2n r}:{digest s' full ring}" :: acc)
     | ["T", n] =>
       if n.toNat?.isNone then "bad-op" :: acc else
       match takeOutput s (natArg n) with
@@ -80,7 +100,7 @@ def runCalls (full : Bool) : St → List String → List String → List String
       | .fuel => "fuel" :: acc
       | .ok (s', out) =>
         let h := if full then bytesToHex out else "-"
-        runCalls full s' rest (s!"{out.length}:{h}:{digest s' full}" :: acc)
+        runCalls full ring s' rest (s!"{out.length}:{h}:{digest s' full ring}" :: acc)
     | "C" :: op :: inp :: cap :: more =>
       let answers : Option (List Ans) := match more with
         | [] => some []
@@ -101,7 +121,7 @@ def runCalls (full : Bool) : St → List String → List String → List String
           let reqs := if io.reqs.isEmpty then "-" else "/".intercalate (io.reqs.map reqToken)
           let bad := if s'.oracleBad ∨ (full ∧ s'.prefixBad) ∨ (s'.nEnc - base ≠ answers.length) then "!oracle" else ""
           let s' := { s' with oracleBad := false, prefixBad := false }
-          runCalls full s' rest (s!"{b2n ret}:{consumed}:{prod}:{reqs}:{digest s' full}{bad}" :: acc)
+          runCalls full ring s' rest (s!"{b2n ret}:{consumed}:{prod}:{reqs}:{digest s' full ring}{bad}" :: acc)
       | _, _, _, _ => "bad-op" :: acc
     | _ => "bad-op" :: acc
 
@@ -125,8 +145,6 @@ def parseCalls (full : Bool) (toks : List String) : Option (List Call × List An
     | some (cs, as), some (c, a) => some (c :: cs, a ++ as)
     | _, _ => none) (some ([], []))
 
-def fnv1a (bs : List Nat) : Nat := bs.foldl (fun h b => ((h ^^^ (b % 256)) * 16777619) % 4294967296) 2166136261
-
 /-- the run-level summary token of a line -/
 def runSummary (full : Bool) (toks : List String) : Option String :=
   match parseCalls full toks with
@@ -145,8 +163,8 @@ def runSummary (full : Bool) (toks : List String) : Option String :=
 def handle (args : List String) : String :=
   match args with
   | mode :: calls =>
-    if mode ≠ "f" ∧ mode ≠ "k" then "bad-op" else
-    let outs := (runCalls (mode == "f") St.new calls []).reverse
+    if mode ≠ "f" ∧ mode ≠ "k" ∧ mode ≠ "r" then "bad-op" else
+    let outs := (runCalls (mode == "f") (mode != "k") St.new calls []).reverse
     let clean := outs.length == calls.length && outs.all (fun a => a != "panic" && a != "fuel" && a != "bad-op")
     let outs := if clean then (match runSummary (mode == "f") calls with | some r => outs ++ [r] | none => outs) else outs
     " ".intercalate outs
